@@ -80,7 +80,8 @@ theorem convert_iso (begin : List Char) (rest : List Char) (args : List Arg) (W 
     (ops : Ops) (d : Directive) (mi : Bool) (out : List Char) (args' : List Arg)
     (hl : ops.left = mi) (hs : ops.sign = d.plus) (hsp : ops.space = d.space) (hh : ops.spec = d.hash)
     (hz : ops.zero = d.zero) (hp : ops.prec = pr.isSome) (hu : ops.upper = false) (hlen : ops.len = d.len)
-    (hb : isoBody igrisPtr true d mi W pr args = some (out, args')) :
+    (hptr : ops.ptr = false) (hchr : ops.chr = false)
+    (hb : isoBody igrisPtr false d mi W pr args = some (out, args')) :
     ∃ pc, convert begin (d.conv :: rest) args W ((pr.getD 0 : Nat) : Int) ops = .ok out pc rest args' := by
   unfold isoBody at hb
   simp only [] at hb
@@ -115,7 +116,7 @@ theorem convert_iso (begin : List Char) (rest : List Char) (args : List Arg) (W 
           | none => rfl
           | some n => simp at hp
         obtain ⟨pc, hpi⟩ := printI_iso u true W (pr.getD 0) ops 10 (by omega) (by intro _; rfl)
-          (by intro h; rw [hu] at h; cases h) hm (by intro ⟨_, _, h⟩; omega)
+          (by intro h; rw [hu] at h; cases h) hm hptr
         refine ⟨pc, ?_⟩
         have hhf : d.hash = false := by simpa using hhash
         have hmag : (if v < 0 then -u else u).toNat = v.natAbs := by
@@ -133,11 +134,8 @@ theorem convert_iso (begin : List Char) (rest : List Char) (args : List Arg) (W 
       | none => simp [hua] at hb
       | some r =>
         obtain ⟨v, as⟩ := r
-        simp only [hua] at hb
-        split at hb
-        · cases hb
-        · rename_i hfind
-          simp only [Option.some.injEq, Prod.mk.injEq] at hb
+        simp only [hua, Bool.false_and, Bool.false_eq_true, if_false] at hb
+        · simp only [Option.some.injEq, Prod.mk.injEq] at hb
           obtain ⟨ho, ha⟩ := hb
           subst ha
           obtain ⟨u, hf, hv⟩ := fetchUnsigned_iso _ _ _ _ hua
@@ -148,8 +146,7 @@ theorem convert_iso (begin : List Char) (rest : List Char) (args : List Arg) (W 
             | some n => simp at hp
           have key : ∀ (ops' : Ops) (base : Nat), ops'.left = mi → ops'.sign = d.plus → ops'.space = d.space →
               ops'.spec = d.hash → ops'.zero = d.zero → ops'.prec = pr.isSome →
-              (ops'.upper = true → base = 16) → (base = 8 ∨ base = 10 ∨ base = 16) →
-              ¬ (d.hash = true ∧ v = 0 ∧ (base = 16 ∨ (base = 8 ∧ pr.getD 1 = 1))) →
+              (ops'.upper = true → base = 16) → (base = 8 ∨ base = 10 ∨ base = 16) → ops'.ptr = false →
               ∃ pc, printI u false W (pr.getD 0 : Nat) ops' base
                 = some (isoInt mi d.plus d.space d.hash d.zero W pr false false v base ops'.upper, pc) := by
             intro ops' base e1 e2 e3 e4 e5 e6 e7 e8 e9
@@ -158,43 +155,19 @@ theorem convert_iso (begin : List Char) (rest : List Char) (args : List Arg) (W 
               cases pr with
               | none => rfl
               | some n => simp at e6
-            obtain ⟨pc, hpi⟩ := printI_iso u false W (pr.getD 0) ops' base e8 (by intro h; cases h) e7 hm'
-              (by
-                intro ⟨g1, g2, g3⟩
-                apply e9
-                refine ⟨by rw [← e4]; exact g1, by simpa [hv] using g2, ?_⟩
-                rcases g3 with g3 | ⟨g3, g4⟩
-                · exact Or.inl g3
-                · refine Or.inr ⟨g3, ?_⟩
-                  rw [e6] at g4
-                  cases pr <;> simp_all)
+            obtain ⟨pc, hpi⟩ := printI_iso u false W (pr.getD 0) ops' base e8 (by intro h; cases h) e7 hm' e9
             refine ⟨pc, ?_⟩
             rw [hpi]
             simp only [Bool.false_and, Bool.false_eq_true, if_false, hv, e1, e2, e3, e4, e5, e6, prec_eq]
           simp only [Bool.or_eq_true, decide_eq_true_eq] at h3
           rcases h3 with ((h | h) | h) | h <;> subst h
-          · obtain ⟨pc, hk⟩ := key ops 10 hl hs hsp hh hz hp (by rw [hu]; intro h; cases h) (by omega)
-              (by intro ⟨_, _, g⟩; omega)
+          · obtain ⟨pc, hk⟩ := key ops 10 hl hs hsp hh hz hp (by rw [hu]; intro h; cases h) (by omega) hptr
             exact ⟨pc, by simp [convert, hd, hlen, hf, hk, hu, ← ho]⟩
-          · obtain ⟨pc, hk⟩ := key ops 8 hl hs hsp hh hz hp (by rw [hu]; intro h; cases h) (by omega)
-              (by
-                intro ⟨g1, g2, g3⟩
-                apply hfind
-                rcases g3 with g3 | ⟨_, g4⟩
-                · omega
-                · simp [g1, g2, g4])
+          · obtain ⟨pc, hk⟩ := key ops 8 hl hs hsp hh hz hp (by rw [hu]; intro h; cases h) (by omega) hptr
             exact ⟨pc, by simp [convert, hd, hlen, hf, hk, hu, ← ho]⟩
-          · obtain ⟨pc, hk⟩ := key ops 16 hl hs hsp hh hz hp (by rw [hu]; intro h; cases h) (by omega)
-              (by
-                intro ⟨g1, g2, _⟩
-                apply hfind
-                simp [g1, g2])
+          · obtain ⟨pc, hk⟩ := key ops 16 hl hs hsp hh hz hp (by rw [hu]; intro h; cases h) (by omega) hptr
             exact ⟨pc, by simp [convert, hd, hlen, hf, hk, hu, ← ho]⟩
-          · obtain ⟨pc, hk⟩ := key { ops with upper := true } 16 hl hs hsp hh hz hp (by intro _; rfl) (by omega)
-              (by
-                intro ⟨g1, g2, _⟩
-                apply hfind
-                simp [g1, g2])
+          · obtain ⟨pc, hk⟩ := key { ops with upper := true } 16 hl hs hsp hh hz hp (by intro _; rfl) (by omega) hptr
             rw [← hlen] at hf
             exact ⟨pc, by simp [convert, hd, hf, hk, ← ho]⟩
   simp only [h3, Bool.false_eq_true, if_false] at hb
@@ -211,17 +184,11 @@ theorem convert_iso (begin : List Char) (rest : List Char) (args : List Arg) (W 
       | cons x as =>
         cases x <;> simp at hb
         rename_i v
-        obtain ⟨hnz, ho, ha⟩ := hb
+        obtain ⟨ho, ha⟩ := hb
         subst ha
-        have hch : Char.ofNat (v.toNat % 256) ≠ NUL := by
-          intro h
-          exact hnz (ofNat_eq_NUL _ (Nat.mod_lt _ (by omega)) h)
-        have hpf : ops.prec = false := by rw [hp]; exact c3
-        have hiso : isoStr [Char.ofNat (v.toNat % 256), NUL] (if ops.prec = true then some (pr.getD 0) else none)
-            = some [Char.ofNat (v.toNat % 256)] := by
-          simp [hpf, isoStr, hch]
-        obtain ⟨pc, hps⟩ := printS_iso _ W (pr.getD 0) ops _ hiso
-        exact ⟨pc, by simp [convert, hd, vaInt, hps, hl, ← ho]⟩
+        subst hl
+        obtain ⟨pc, hps⟩ := printS_chr (Char.ofNat (v.toNat % 256)) NUL W (pr.getD 0) { ops with chr := true } rfl
+        exact ⟨pc, by simp [convert, hd, vaInt, hps, ← ho]⟩
   simp only [h4, if_false] at hb
   by_cases h5 : c = 's'
   · subst h5
@@ -237,7 +204,7 @@ theorem convert_iso (begin : List Char) (rest : List Char) (args : List Arg) (W 
         subst ha
         have hiso : isoStr mem (if ops.prec = true then some (pr.getD 0) else none) = some body := by
           rw [hp, prec_eq]; exact hbody
-        obtain ⟨pc, hps⟩ := printS_iso _ W (pr.getD 0) ops _ hiso
+        obtain ⟨pc, hps⟩ := printS_iso _ W (pr.getD 0) ops _ hchr hiso
         exact ⟨pc, by simp [convert, hd, hps, hl, ← ho]⟩
   simp only [h5, if_false] at hb
   by_cases h6 : c = 'p'
@@ -299,7 +266,7 @@ set_option linter.constructorNameAsVariable false in
 theorem directive_iso (cs : List Char) (args : List Arg) (d : Directive) (rest : List Char)
     (out : List Char) (args' : List Arg)
     (hp : parseDirective cs = some (d, rest))
-    (hc : isoConv igrisPtr true d args = some (out, args')) :
+    (hc : isoConv igrisPtr false d args = some (out, args')) :
     ∃ pc, directive ('%' :: cs) args = .ok out pc rest args' := by
   -- take the spec's parse apart
   unfold parseDirective at hp
@@ -369,7 +336,7 @@ theorem directive_iso (cs : List Char) (args : List Arg) (d : Directive) (rest :
     { left := mi, sign := (cs.takeWhile isFlag).contains '+', space := (cs.takeWhile isFlag).contains ' ',
       spec := (cs.takeWhile isFlag).contains '#', zero := (cs.takeWhile isFlag).contains '0',
       prec := pr.isSome, upper := false, len := l }
-    d mi out args' rfl (by rw [← hd_]) (by rw [← hd_]) (by rw [← hd_]) (by rw [← hd_]) rfl rfl hdl.symm hc
+    d mi out args' rfl (by rw [← hd_]) (by rw [← hd_]) (by rw [← hd_]) (by rw [← hd_]) rfl rfl hdl.symm rfl rfl hc
   rw [hdc] at hcv
   refine ⟨pc, ?_⟩
   unfold directive
